@@ -4,9 +4,18 @@ use serde_json::Value;
 pub fn shape_matches(shape: &str, case: &Value) -> bool {
     match shape {
         "" | "any" => true,
-        _ => {
-            let _ = case;
-            false
+        // C17: the failing line is a single declaration `stel NAME = …` and a later line mentions NAME
+        "failed-declaration-leaves-its-name" => {
+            let failing = case.get("failing").and_then(|f| f.as_str()).unwrap_or("");
+            let name = match failing.strip_prefix("stel ").and_then(|r| r.split_once(" = ")) {
+                Some((n, _)) if !failing.contains(';') && !n.is_empty() && n.chars().all(|c| c.is_alphanumeric() || c == '_') => n.to_string(),
+                _ => return false,
+            };
+            case.get("later")
+                .and_then(|l| l.as_array())
+                .map(|l| l.iter().filter_map(|x| x.as_str()).any(|line| line.split(|c: char| !(c.is_alphanumeric() || c == '_')).any(|w| w == name)))
+                .unwrap_or(false)
         }
+        _ => false,
     }
 }
